@@ -89,17 +89,22 @@ func hbCheckFinal(w *vrfClusterWorld, pre []*core.RegionInfo, sent []*core.Regio
 		if now == nil {
 			continue
 		}
-		if gone[old.GetID()] {
-			// the id was displaced from the cache by an accepted overlapping region and admitted again later:
-			// PD keeps no memory of displaced ids (see known finding readmitted-after-displacement)
-			v.Assert("readmitted-after-displacement-not-older", v.Not(v.Or(now.GetRegionEpoch().GetVersion() < old.GetRegionEpoch().GetVersion(),
-				now.GetRegionEpoch().GetConfVer() < old.GetRegionEpoch().GetConfVer(),
-				v.And(now.GetTerm() != 0, now.GetTerm() < old.GetTerm()))))
-			continue
+		// displaced: the id was (or may have been) evicted from the cache by an accepted overlapping region of
+		// another id before being admitted again; PD keeps no memory of displaced ids (known finding
+		// readmitted-after-displacement). Observed concretely (gone) or implied by an accepted overlapping heartbeat.
+		displaced := gone[old.GetID()]
+		for i, x := range sent {
+			if accepted[i] && x.GetID() != old.GetID() {
+				displaced = v.Or(displaced, hbOverlap(x, old))
+			}
 		}
-		v.Assert("version-never-regresses", v.Not(now.GetRegionEpoch().GetVersion() < old.GetRegionEpoch().GetVersion()))
-		v.Assert("conf-ver-never-regresses", v.Not(now.GetRegionEpoch().GetConfVer() < old.GetRegionEpoch().GetConfVer()))
-		v.Assert("term-never-regresses", v.Or(now.GetTerm() >= old.GetTerm(), now.GetTerm() == 0))
+		regressed := v.Or(now.GetRegionEpoch().GetVersion() < old.GetRegionEpoch().GetVersion(),
+			now.GetRegionEpoch().GetConfVer() < old.GetRegionEpoch().GetConfVer(),
+			v.And(now.GetTerm() != 0, now.GetTerm() < old.GetTerm()))
+		v.Assert("readmitted-after-displacement-not-older", v.Not(v.And(regressed, displaced)))
+		v.Assert("version-never-regresses", v.Or(displaced, v.Not(now.GetRegionEpoch().GetVersion() < old.GetRegionEpoch().GetVersion())))
+		v.Assert("conf-ver-never-regresses", v.Or(displaced, v.Not(now.GetRegionEpoch().GetConfVer() < old.GetRegionEpoch().GetConfVer())))
+		v.Assert("term-never-regresses", v.Or(displaced, now.GetTerm() >= old.GetTerm(), now.GetTerm() == 0))
 	}
 	// everything served is either an old region or an accepted heartbeat, and is found by key lookup
 	for _, r := range served {
